@@ -247,6 +247,8 @@ pub struct Runner {
     pub exhaustive_all: bool,
     harness_errors: Vec<String>,
     pub workers: usize,
+    /// cap on proptest shrink iterations (expensive cases)
+    pub max_shrink: Option<u32>,
 }
 
 thread_local! {
@@ -282,6 +284,14 @@ fn run_guarded(f: impl FnOnce() -> CaseResult) -> CaseResult {
             let sig = if in_harness { format!("harness-panic:{file}") } else { format!("panic:{file}") };
             Err(Stop::Fail { sig, msg: format!("panic: {msg}") })
         }
+    }
+}
+
+/// failures that did not go through `Case::fail` (panics) are matched against the open findings here
+fn tolerate_known(res: CaseResult, open: &HashSet<String>) -> CaseResult {
+    match res {
+        Err(Stop::Fail { sig, .. }) if open.contains(&sig) => Err(Stop::KnownHit(sig)),
+        other => other,
     }
 }
 
@@ -323,6 +333,7 @@ impl Runner {
             exhaustive_all: false,
             harness_errors: Vec::new(),
             workers,
+            max_shrink: None,
         }
     }
 
@@ -423,6 +434,7 @@ impl Runner {
         let open = &self.open;
         let tier = self.tier;
         let seed = self.seed;
+        let max_shrink = self.max_shrink;
         let stop_all = AtomicBool::new(false);
         let results: Vec<(Stats, Option<Violation>)> = std::thread::scope(|scope| {
             let handles: Vec<_> = (0..workers)
@@ -436,7 +448,7 @@ impl Runner {
                         let config = Config {
                             cases: per as u32,
                             failure_persistence: None,
-                            max_shrink_iters: if tier == Tier::Quick { 1500 } else { 6000 },
+                            max_shrink_iters: max_shrink.unwrap_or(if tier == Tier::Quick { 1500 } else { 6000 }),
                             max_shrink_time: 0,
                             verbose: 0,
                             ..Config::default()
@@ -451,7 +463,7 @@ impl Runner {
                             }
                             let want_sample = !shrinking && n_samples.get() < 1 && w < 4;
                             let mut case = Case::new(&tape, open, false, tier, want_sample, 0);
-                            let res = run_guarded(|| f(&mut case));
+                            let res = tolerate_known(run_guarded(|| f(&mut case)), open);
                             if shrinking {
                                 // only the same failure counts while shrinking
                                 return match res {
@@ -551,7 +563,7 @@ impl Runner {
                             for idx in lo..(lo + chunk).min(n) {
                                 let want = n_samples < 1 && w < 3;
                                 let mut case = Case::new(&[], open, false, tier, want, idx);
-                                let res = run_guarded(|| f(idx, &mut case));
+                                let res = tolerate_known(run_guarded(|| f(idx, &mut case)), open);
                                 if case.sample.is_some() {
                                     n_samples += 1;
                                 }
